@@ -38,6 +38,12 @@ def St.init (nv nc : Nat) : St := { vars := List.replicate nv .null, caps := Lis
 
 def fuelDefault : Nat := 400
 
+/-- `KValue::deep_copy` = `deep_copy_with_nesting_limit(256)` (fix 55b45e0): a value whose nesting
+(counting every node, leaves included) exceeds 256 levels — in particular every cyclic one — is a
+runtime error. `Heap.deepCopy`'s fuel is exactly that limit: it drops by one per level, not per
+element. -/
+def deepCopyLimit : Nat := 256
+
 def sizeOf? (heap : Heap) : HVal → Option Nat
   | .lref h => (getList heap h).map List.length
   | .mref h => (getMap heap h).map List.length
@@ -67,10 +73,10 @@ def applyOp (F : FloatOps) (mech : Bool) (name : String) (args : List HVal) (hea
   | "insert", [.lref h, .num i, v] => onList F heap h (.insert i v)
   | "remove", [.lref h, .num i] => onList F heap h (.remove i)
   | "extend", [.lref h, .lref h'] =>
-    if h = h' then (heap, .panic)   -- data_mut() while data() is borrowed (F-C06-3)
-    else match getList heap h' with
+    -- the other list's entries are copied first (fix 515abf4), so `l.extend l` doubles the list
+    (match getList heap h' with
       | some ys => onList F heap h (.extend ys)
-      | none => (heap, .err .type)
+      | none => (heap, .err .type))
   | "extend", [.lref h, .tuple ys] => onList F heap h (.extend ys)
   | "clear", [.lref h] => onList F heap h .clear
   | "resize", [.lref h, .num n] => onList F heap h (.resize n .null)
@@ -79,7 +85,7 @@ def applyOp (F : FloatOps) (mech : Bool) (name : String) (args : List HVal) (hea
   | "reverse", [.lref h] => onList F heap h .reverse
   | "sort", [.lref h] => onList F heap h .sort
   | "sortkey", [.lref h] => onList F heap h .sortKey
-  | "swap", [.lref h, .lref h'] => if h = h' then (heap, .panic) else swapLists heap h h'
+  | "swap", [.lref h, .lref h'] => swapLists heap h h'   -- with itself: a no-op (fix 515abf4)
   | "retain", [.lref h, v] =>
     onList F heap h (.retain (fun x => heq F fuelDefault heap x v == some true))
   | "first", [.lref h] => (heap, match getList heap h with | some xs => .ok (xs.head?.getD .null) | none => .err .type)
@@ -136,10 +142,9 @@ def applyOp (F : FloatOps) (mech : Bool) (name : String) (args : List HVal) (hea
   | "update", [.mref h, k, d] =>
     (match toKey? k with | some key => onMap F mech heap h (.update key d) | none => (heap, .err .unhashable))
   | "extend", [.mref h, .mref h'] =>
-    if h = h' then (heap, .panic)
-    else match getMap heap h' with
+    (match getMap heap h' with
       | some es => onMap F mech heap h (.extend es)
-      | none => (heap, .err .type)
+      | none => (heap, .err .type))
   | "clear", [.mref h] => onMap F mech heap h .clear
   | "sort", [.mref h] => onMap F mech heap h .sort
   | "keys", [.mref h] => (heap, match getMap heap h with | some es => .ok (.tuple (es.map (fun e => ofVal e.1))) | none => .err .type)
@@ -162,7 +167,7 @@ def applyOp (F : FloatOps) (mech : Bool) (name : String) (args : List HVal) (hea
   | "add", [a, b] => (match addVals F mech heap a b with | some r => (r.1, .ok r.2) | none => (heap, .err .type))
   | "copy", [x] => let r := copyVal heap x; (r.1, .ok r.2)
   | "deep_copy", [x] =>
-    (match deepCopy fuelDefault heap x with | some r => (r.1, .ok r.2) | none => (heap, .err .cycle))
+    (match deepCopy deepCopyLimit heap x with | some r => (r.1, .ok r.2) | none => (heap, .err .depth))
   | "eq", [a, b] => (heap, match heq F fuelDefault heap a b with | some r => .ok (.bool r) | none => .err .cycle)
   | "ne", [a, b] =>
     (heap, match snapshot fuelDefault heap a, snapshot fuelDefault heap b with
